@@ -139,6 +139,15 @@ theorem decode_encode_emsg (x : Emsg) (h : x.Wf) : decEmsg (encEmsg x) = some x 
 theorem encode_decode_emsg (bs : Bytes) (x : Emsg) (h : decEmsg bs = some x) :
     x.Wf ∧ encEmsg x = bs := encEmsg_decEmsg h
 
+/-- `dec3`: 1–8 independent substreams, each with or without dependent substreams
+(3 or 4 bytes), with or without the trailing extension block that the parser
+recognises by "at least 16 bits left" -/
+theorem decode_encode_dec3 (x : Dec3) (h : x.Wf) : decDec3 (encDec3 x) = some x := decDec3_encDec3 x h
+
+/-- non-vacuity: two substreams (one with dependent substreams) and the extension -/
+example : (Dec3.mk 8191 [⟨0, 16, 0, 7, 1, 0, 0⟩, ⟨2, 16, 31, 2, 0, 15, 511⟩] (some (1, 255))).Wf := by
+  decide
+
 /-! ## the tfdt switch to version 1 (mp4.py:2203-2212) -/
 /-- assigning `base_media_decode_time = v` to a version-0 box: the box becomes
 version 1 exactly when `v` does not fit 32 bits, the value is stored, the result
@@ -200,6 +209,23 @@ theorem encode_after_edits (ctx : SencCtx) (root : STree) (es : List Edit) (pos 
   rw [h1]
   have := encode_children_fill ctx [t.erase] (by simp [BoxesWf, hw])
   simpa [encBoxes] using this
+
+/-- non-vacuity of `edits_preserve_sizes`: a moof with an mfhd; append a tfdt,
+assign a 33-bit time (switch to version 1), remove the mfhd -/
+def exRoot : STree :=
+  .node (.std (ascii "moof")) false ⟨24, 0⟩ [.leaf (.std (ascii "mfhd")) false ⟨16, 8⟩ (.mfhd ⟨0, 0, 7⟩)]
+def exTfdt : STree := .leaf (.std (ascii "tfdt")) false ⟨16, 0⟩ (.tfdt ⟨0, 0, 5⟩)
+def exEdits : List Edit :=
+  [.child [] (.append exTfdt), .setTfdt [1] 4294967296, .child [] (.remove 0)]
+
+example : exRoot.SizeOk := by
+  simp only [exRoot, STree.SizeOk, SizeAllOk, and_true]; decide
+example : ∀ e ∈ exEdits, e.Tracked := by
+  intro e he
+  simp only [exEdits, List.mem_cons, List.mem_nil_iff, or_false] at he
+  rcases he with rfl | rfl | rfl <;> simp only [Edit.Tracked, exTfdt, STree.SizeOk] <;> decide
+/-- the edits really change the tree: 24 → 40 (tfdt appended) → 44 (version 1) → 28 (mfhd removed) -/
+example : (applyEdits exRoot exEdits).size = 28 := by decide
 
 /-! ## lazy loading -/
 /-- a tree in which any sub-trees are still the bytes they were read from encodes
